@@ -407,7 +407,7 @@ Fixpoint trim_ws_start_rev (s : bytes) : bytes :=
 
 Definition rust_trim (s : bytes) : bytes := rev_fast (trim_ws_start_rev (rev_fast (trim_ws_start s))).
 
-(** create_object: [object_id.trim()] then validate_object_id (repo.rs:524,543;
+(** create_object: [object_id.trim()] then validate_object_id (repo.rs:551,570;
     validate/mod.rs:32-39); the trimmed id is what the inventory stores *)
 Definition create_object_id (id : bytes) : res bytes :=
   let t := rust_trim id in if is_empty t then Err else Ok t.
@@ -415,6 +415,26 @@ Definition create_object_id (id : bytes) : res bytes :=
 (** validate_content_dir, validate/mod.rs:53-61 *)
 Definition validate_content_dir (c : bytes) : bool :=
   negb (bytes_eqb c [DOT] || bytes_eqb c [DOT; DOT] || existsb (fun x => code x =? 47) c).
+
+(** create_object's own guard behind validate_content_dir, repo.rs:574-583
+    (fix d88c1da): "The inventory files are stored next to the content directory"
+      content_dir.is_empty() || content_dir == INVENTORY_FILE
+        || content_dir.starts_with(INVENTORY_SIDECAR_PREFIX)
+    consts.rs:33-34: INVENTORY_FILE = "inventory.json", INVENTORY_SIDECAR_PREFIX =
+    "inventory.json." - EVERY name beginning with the prefix is refused (also the bare
+    prefix and `inventory.json.<anything>`), not only the sidecar of the object's own
+    digest algorithm. *)
+Definition cdir_reserved (c : bytes) : bool :=
+  is_empty c || bytes_eqb c K_INVENTORY_FILE || starts_with K_INVENTORY_SIDECAR_PREFIX c.
+
+(** the content directory names create_object accepts (repo.rs:572-583): both tests
+    answer InvalidValue before anything is locked or written *)
+Definition create_object_cdir (c : bytes) : bool :=
+  validate_content_dir c && negb (cdir_reserved c).
+
+(** historical: acceptance before d88c1da was validate_content_dir alone; only used
+    by the `..._before_fix` notes of Props/C10.v *)
+Definition create_object_cdir_before_fix (c : bytes) : bool := validate_content_dir c.
 
 (** CommitMeta::with_user, types.rs:1304-1313 *)
 Definition with_user (name address : option bytes) : bool :=
@@ -437,7 +457,10 @@ Definition content_path (v : vnum) (cdir lp : bytes) : bytes :=
   vdisplay v ++ SL :: cdir ++ SL :: lp.
 
 (** the version directory also holds inventory.json and its sidecar
-    (stage_inventory with finalize copies them there, fs.rs:743-775, 206-224) *)
+    (stage_inventory with finalize copies them there, fs.rs:858-890, 255-274): a
+    content directory of one of these two names makes every commit fail ("Is a
+    directory").  No name create_object accepts collides (Proofs/JsonPosFacts.v,
+    [accepted_cdir_no_collision]). *)
 Definition cdir_collides (cdir alg : bytes) : bool :=
   bytes_eqb cdir K_INVENTORY_FILE || bytes_eqb cdir (K_INVENTORY_SIDECAR_PREFIX ++ alg).
 
